@@ -347,8 +347,10 @@ class Check:
 
     # --- liveness under explicit fairness (Machine/Fair.lean + Props/Live*.lean) ---------------------------------
     LIVE = {
-        "C02": (["UrcuVerif.Props.LiveC02"],
-                ["UrcuVerif.Handshake.leader_eventually_woken", "UrcuVerif.Handshake.readers_eventually_done",
+        "C02": (["UrcuVerif.Props.LiveC02", "UrcuVerif.Props.LiveC02Gp", "UrcuVerif.Props.LiveC02Qsbr"],
+                ["UrcuVerif.Gp.synchronize_rcu_eventually_returns", "UrcuVerif.Gp.tracked_gp_eventually_done",
+                 "UrcuVerif.Gp.registration_churn_must_stop", "UrcuVerif.Qsbr.qsbr_synchronize_rcu_eventually_returns",
+                 "UrcuVerif.Handshake.leader_eventually_woken", "UrcuVerif.Handshake.readers_eventually_done",
                  "UrcuVerif.Handshake.gp_eventually_completes", "UrcuVerif.WaitNode.leader_eventually_done",
                  "UrcuVerif.WaitNode.waiter_eventually_woken", "UrcuVerif.WaitNode.waiter_eventually_returns",
                  "UrcuVerif.QsbrHs.qsbr_leader_eventually_woken"]),
